@@ -187,7 +187,7 @@ func (s gridSolid3) Contains(p model3d.Coord3D) bool {
 }
 
 func marginSections(r *vlib.Run) {
-	r.Section("ms.margin", r.N(800, 12000), vlib.SectionOpts{Sequential: true}, func(c *vlib.Case) {
+	r.Section("ms.margin", r.N(600, 12000), vlib.SectionOpts{Sequential: true}, func(c *vlib.Case) {
 		rng := c.Rng
 		g := newGridBoxes(rng, 2)
 		s := gridSolid2{g}
@@ -243,7 +243,7 @@ func marginSections(r *vlib.Run) {
 		}
 	})
 
-	r.Section("mc.margin", r.N(60, 800), vlib.SectionOpts{Sequential: true}, func(c *vlib.Case) {
+	r.Section("mc.margin", r.N(40, 800), vlib.SectionOpts{Sequential: true}, func(c *vlib.Case) {
 		rng := c.Rng
 		g := newGridBoxes(rng, 3)
 		s := gridSolid3{g}
